@@ -1108,7 +1108,9 @@ class Server:
 
     @ConnectionConditions(ConnectionConditions.login_required)
     async def pwd(self, connection, rest):
-        code, info = "257", f'"{connection.current_directory}"'
+        # quotes which are part of the name are doubled (RFC 959)
+        directory = str(connection.current_directory).replace('"', '""')
+        code, info = "257", f'"{directory}"'
         connection.response(code, info)
         return True
 
